@@ -98,6 +98,14 @@ type mutator struct {
 	// git would skip the smudging of racily-clean entries it performs in a real repository, and the resulting
 	// index would not be one git can produce.
 	racyEdited bool
+	// clock: logical mtime for files the mutator rewrites (starts 90 s before the base index, +1 s per use), so that
+	// whether a rewritten file is older than the index never depends on kernel timestamp ticks
+	clock time.Time
+}
+
+func (m *mutator) stamp(full string) {
+	m.clock = m.clock.Add(time.Second)
+	os.Chtimes(full, m.clock, m.clock)
 }
 
 func (m *mutator) note(p, kind string) {
@@ -132,6 +140,7 @@ func (m *mutator) worktreeRound(n int) {
 			if fi, err := os.Lstat(full); err == nil && fi.Mode().IsRegular() {
 				b, _ := os.ReadFile(full)
 				os.WriteFile(full, append(b, []byte("more\n")...), fi.Mode().Perm())
+				m.stamp(full)
 				m.note(p, "edit")
 			}
 		case k == 2 && len(paths) > 0: // same-size edit; racy if the entry is racily clean
@@ -189,6 +198,7 @@ func (m *mutator) worktreeRound(n int) {
 			os.Remove(full)
 			if fi.Mode()&os.ModeSymlink != 0 {
 				os.WriteFile(full, []byte("was a link\n"), 0o644)
+				m.stamp(full)
 				m.note(p, "symlink->file")
 			} else {
 				os.Symlink("elsewhere", full)
@@ -273,7 +283,7 @@ func (m *mutator) worktreeRound(n int) {
 			p := paths[r.Intn(len(paths))]
 			full := filepath.Join(m.dir, p)
 			if fi, err := os.Lstat(full); err == nil && fi.Mode().IsRegular() {
-				os.Chtimes(full, idxTime.Add(3e9), idxTime.Add(3e9))
+				os.Chtimes(full, idxTime.Add(time.Hour), idxTime.Add(time.Hour)) // far in the future: newer than any index written during the run
 				m.note(p, "touch")
 			}
 		}
@@ -481,6 +491,7 @@ func run(c *vf.Ctx) {
 				}
 			}
 			m := &mutator{r: cr, g: g, dir: D, tree: headTree, feat: map[string]string{}}
+			m.clock = modTime(filepath.Join(D, ".git", "index")).Truncate(time.Second).Add(-90 * time.Second)
 			wrapped := ci%3 == 2
 			reported := map[string]bool{} // finding keys already reported for this case (later rounds repeat them)
 			for round := 0; round < rounds; round++ {
@@ -660,6 +671,7 @@ func run(c *vf.Ctx) {
 	c.Assume("git's type-change code T is compared as M: go-git's StatusCode has no T")
 	c.Assume("rename detection is off on both sides (--no-renames); ignored files are not listed (--ignored=no)")
 	c.Assume("a path staged as deleted that still exists on disk gets two git records (D and ??): folded to staging D, worktree ?")
+	c.Assume("racy-ness is constructed, never accidental: base timestamps are set explicitly (racy histories: file == entry == index mtime; others: files 100 s older than the index), files rewritten by the mutator get a logical clock older than every index write, touched files get an mtime one hour in the future")
 	c.Assume("once a racily-clean entry has been edited keeping size and mtime, real git no longer rewrites the index of that copy (in a copy every entry is stat-dirty for git, so it would skip the smudging it performs in a real repository); go-git operations still do")
 	c.Assume("go-git Add of a path that forms a file/directory conflict with a tracked path is not used for state building (the index it produces is C28's subject)")
 	c.Assume("ignore patterns come from a safe subset (no ** adjacent to a non-slash: git < 2.52 bug); gitlinks/submodules and unmerged entries are outside this check's generator; core.autocrlf {true,input} is applied to a third of the histories, whose blobs partly have CRLF endings (conversion itself: C31)")
